@@ -345,3 +345,50 @@ func ZZ_C05_manualNeverByTime() {
 	nondet.Observe("current", cur.Name)
 	nondet.Reach("C05.manual.waiting", !valid && cur == active)
 }
+
+// ZZ_C05_terminatingActiveIsStillThere: "if the recorded active replica set no longer exists the
+// matching one is adopted directly" — only then.  An active replica set that is being deleted in the
+// foreground (deletionTimestamp set, held by a finalizer, still listed, still owning the pods) exists:
+// the promotion rule keeps applying.  Canary in progress in a situation where the rule says no
+// (duration not elapsed / failed / paused / manual mode): status.activeReplicaSet stays what it was.
+func ZZ_C05_terminatingActiveIsStillThere() {
+	canary := &datadoghqv1alpha1.ExtendedDaemonSetSpecStrategyCanary{Duration: &metav1.Duration{Duration: time.Hour}}
+	why := nondet.String("ruleSaysNoBecause", "duration-not-elapsed", "failed", "paused", "manual")
+	if why == "manual" {
+		canary = &datadoghqv1alpha1.ExtendedDaemonSetSpecStrategyCanary{ValidationMode: datadoghqv1alpha1.ExtendedDaemonSetSpecStrategyCanaryValidationModeManual}
+	}
+	ds := zzEDS("ns", "foo", "B", canary)
+	c := fakeapi.New()
+	rsA := zzRS(ds, "A", "foo-a", nondet.Base().Add(-24*time.Hour))
+	rsA.Status.Desired, rsA.Status.Current, rsA.Status.Ready, rsA.Status.Available = 2, 2, 2, 2
+	created := nondet.Base().Add(-time.Minute)
+	if why == "failed" || why == "paused" {
+		created = nondet.Base().Add(-2 * time.Hour) // the duration has elapsed
+	}
+	rsB := zzRS(ds, "B", "foo-b", created)
+	rsB.Status.Desired, rsB.Status.Current = 1, 1
+	if why == "failed" {
+		zzSetCond(rsB, datadoghqv1alpha1.ConditionTypeCanaryFailed, true, nondet.Base().Add(-time.Minute))
+	}
+	if why == "paused" {
+		ds.Annotations[datadoghqv1alpha1.ExtendedDaemonSetCanaryPausedAnnotationKey] = "true"
+	}
+	if nondet.Bool("activeReplicaSetTerminating") {
+		t := metav1.NewTime(nondet.Base().Add(-10 * time.Second))
+		rsA.DeletionTimestamp = &t
+		rsA.Finalizers = []string{"foregroundDeletion"}
+	}
+	ds.Status.ActiveReplicaSet = "foo-a"
+	ds.Status.State = datadoghqv1alpha1.ExtendedDaemonSetStatusStateCanary
+	ds.Status.Canary = &datadoghqv1alpha1.ExtendedDaemonSetStatusCanary{ReplicaSet: "foo-b", Nodes: []string{"node0"}}
+	c.Nodes = append(c.Nodes, &corev1.Node{ObjectMeta: metav1.ObjectMeta{Name: "node0"}}, &corev1.Node{ObjectMeta: metav1.ObjectMeta{Name: "node1"}})
+	c.EDS = append(c.EDS, ds)
+	c.ERS = append(c.ERS, rsA, rsB)
+	_, err := zzReconcile(zzReconciler(c), "ns", "foo")
+	st := zzStoredEDS(c, "ns", "foo")
+	nondet.Assert("C05.terminating.noerror", err == nil)
+	nondet.Assert("C05.terminating.rule-still-applies", st.Status.ActiveReplicaSet == "foo-a")
+	nondet.Assert("C05.terminating.active-not-deleted-again", c.Count("delete", "ExtendedDaemonSetReplicaSet") == 0 || why == "failed")
+	nondet.Observe("active", st.Status.ActiveReplicaSet)
+	nondet.Reach("C05.terminating.manual", why == "manual" && rsA.DeletionTimestamp != nil)
+}
